@@ -54,6 +54,15 @@ Rounds 6-7 (soundness audit of every VIOLATED verdict; the assumptions are writt
    count that are not literal shifts, stores by computed name that cannot be shown to hit `npts`, split communicators whose size is
    adjusted by other than literal shifts, handlers that go on with a computed grid, a lone extent store when the other is stored
    elsewhere, tables starting at 2 after an early exit for the candidate 1, failure-guard forms when there are several raise/assert.
+
+Round 9:
+ - N1-call-site: equal communicator NAMES at the read of the size and at getLayoutHandler are the same communicator only if the same
+   bindings of the name reach both places (`_reaching`: structured reaching definitions, over-approximated in loops / try / match).
+   A `name = R.Split(...)` that lies after the read, reaches the handler, splits the communicator whose size was read and is executed
+   on a free input is VIOLATED (stale process count); any other difference is UNDECIDED.
+ - N3-bounded-recursion: no function reachable from the search is on a cycle of the module's call graph (HOLDS); a function that
+   calls itself with one parameter moved by a literal step until it meets another argument / divides one has a call depth chosen by
+   the caller: RecursionError (a RuntimeError, like the search's own error) although a grid exists -> VIOLATED; other recursion UNDECIDED.
 """
 from __future__ import annotations
 
@@ -1741,9 +1750,147 @@ def _same_comm(f, hc, cm):
 
 
 # ---------------------------------------------------------------------------------------------------------
+# N1: a communicator NAME stands for the object bound to it at the place where it is read (reaching definitions)
+# ---------------------------------------------------------------------------------------------------------
+class _Reached(Exception):
+    def __init__(self, state):
+        self.state = state
+
+
+def _binds_here(st, name):
+    """does the statement itself (not the statements nested in it, not nested scopes) bind the plain name?
+    -> 'kill' (an unconditional assignment statement), 'may' (walrus / with / for target / import / del), None"""
+    if isinstance(st, (ast.FunctionDef, ast.AsyncFunctionDef, ast.ClassDef)):
+        return "kill" if st.name == name else None
+    if isinstance(st, (ast.Import, ast.ImportFrom)):
+        return "kill" if any((a.asname or a.name.split(".")[0]) == name for a in st.names) else None
+    own = []
+    for fld, val in ast.iter_fields(st):
+        for x in (val if isinstance(val, list) else [val]):
+            if isinstance(x, ast.AST) and not isinstance(x, (ast.stmt, ast.ExceptHandler, ast.match_case)):
+                own.append(x)
+    hit = False
+    work = list(own)
+    while work:
+        x = work.pop()
+        if isinstance(x, (ast.Lambda, ast.ListComp, ast.SetComp, ast.DictComp, ast.GeneratorExp)):
+            # another scope (a walrus inside a comprehension binds outside: counted as a possible binding)
+            hit = hit or any(isinstance(n, ast.NamedExpr) and n.target.id == name for n in ast.walk(x))
+            continue
+        if isinstance(x, ast.Name) and x.id == name and isinstance(x.ctx, (ast.Store, ast.Del)):
+            hit = True
+        work += list(ast.iter_child_nodes(x))
+    if not hit:
+        return None
+    if isinstance(st, (ast.Assign, ast.AnnAssign, ast.AugAssign)):
+        tgs = st.targets if isinstance(st, ast.Assign) else [st.target]
+        if any(isinstance(n, ast.Name) and n.id == name and isinstance(n.ctx, ast.Store) for t in tgs for n in ast.walk(t)) and \
+                not (isinstance(st, ast.AnnAssign) and st.value is None):
+            return "kill"
+    return "may"
+
+
+def _all_binders(node, name):
+    out = set()
+    for n in ast.walk(node):
+        if isinstance(n, ast.stmt) and _binds_here(n, name):
+            out.add(n)
+    return out
+
+
+def _reaching(f, name, target):
+    """Reaching definitions of the plain local `name` at the statement `target` of the function f (just BEFORE the statement runs; for
+    a compound statement: before its header): the set of statements whose binding of the name can be the current one there; None in
+    the set = the value at function entry (parameter / global / unbound).  The result over-approximates (loops, try, match and with
+    statements add every binding inside them); None = not followed (target not found, `global`/`nonlocal` for the name)."""
+    for n in ast.walk(f):
+        if isinstance(n, (ast.Global, ast.Nonlocal)) and name in n.names:
+            return None
+
+    def flow(stmts, state):
+        """state after the statement list; None when its end is not reached"""
+        for st in stmts:
+            if state is None:
+                return None
+            if st is target:
+                raise _Reached(state)
+            b = _binds_here(st, name)
+            if isinstance(st, ast.If):
+                s0 = state | {st} if b else state
+                a, o = flow(st.body, s0), flow(st.orelse, s0)
+                state = None if a is None and o is None else (a or frozenset()) | (o or frozenset())
+            elif isinstance(st, (ast.For, ast.AsyncFor, ast.While)):
+                s0 = state | _all_binders(st, name)
+                flow(st.body, s0)
+                flow(st.orelse, s0)
+                state = s0
+            elif isinstance(st, (ast.Try, getattr(ast, "TryStar", ast.Try))):
+                s0 = state | _all_binders(st, name)
+                flow(st.body, s0)
+                for h in st.handlers:
+                    flow(h.body, s0)
+                flow(st.orelse, s0)
+                flow(st.finalbody, s0)
+                state = s0
+            elif isinstance(st, (ast.With, ast.AsyncWith)):
+                s0 = state | {st} if b else state
+                state = flow(st.body, s0)   # a with block is left at its end (or by an exception / jump)
+            elif isinstance(st, getattr(ast, "Match", ())):
+                s0 = state | _all_binders(st, name)
+                for cs in st.cases:
+                    flow(cs.body, s0)
+                state = s0
+            elif isinstance(st, (ast.Return, ast.Raise, ast.Break, ast.Continue)):
+                # break / continue only occur inside loops, whose states already hold every binding of the loop
+                return None
+            elif isinstance(st, (ast.FunctionDef, ast.AsyncFunctionDef, ast.ClassDef)):
+                state = frozenset({st}) if b == "kill" else state
+            elif b == "kill":
+                state = frozenset({st})
+            elif b == "may":
+                state = state | {st}
+        return state
+    try:
+        flow(f.body, frozenset({None}))
+    except _Reached as r:
+        return set(r.state)
+    return None
+
+
+def _comm_rebound(f, exprs, read_st, use_sts):
+    """Is a communicator name of the expressions bound to ANOTHER object where the layouts are built than where its size is read?
+    -> None (same definitions reach both places / nothing to compare), or
+       (name, new definitions (statements) reaching a use but not the read, definitions reaching the read, followed: bool)"""
+    names = []
+    for e in exprs:
+        for n in ast.walk(e):
+            if isinstance(n, ast.Name) and n.id not in names:
+                names.append(n.id)
+                vals, augs = _defs(f, n.id)
+                if len(vals) == 1 and vals[0] is not None and not augs:
+                    # a name assigned once stands for its value where it is assigned: the names of the value are compared as well
+                    names += [m.id for m in ast.walk(vals[0]) if isinstance(m, ast.Name) and m.id not in names]
+    for nm in names:
+        vals, augs = _defs(f, nm)
+        if len(vals) + len(augs) < 2:
+            continue
+        at_read = _reaching(f, nm, read_st)
+        if at_read is None:
+            return nm, [], set(), False
+        for u in use_sts:
+            at_use = _reaching(f, nm, u)
+            if at_use is None:
+                return nm, [], at_read, False
+            if at_use != at_read:
+                new = sorted((d for d in at_use - at_read if d is not None), key=lambda d: d.lineno)
+                return nm, new, at_read, True
+    return None
+
+
+# ---------------------------------------------------------------------------------------------------------
 # N1: the grid sizes handed to the search are the ones the layouts' grids are built from
 # ---------------------------------------------------------------------------------------------------------
-_READ_ONLY_CALLS = {"getattr", "hasattr", "dir", "isinstance", "callable", "type", "id", "print", "repr", "str", "len", "vars"}
+_READ_ONLY_CALLS ={"getattr", "hasattr", "dir", "isinstance", "callable", "type", "id", "print", "repr", "str", "len", "vars"}
 
 
 def _stmt_of(node):
@@ -2300,6 +2447,56 @@ def _site_plain(chk, f, c, label, gparams, hparams, via_helper=False, layout_par
     literal_adj = all((isinstance(a, ast.AugAssign) and _int_const(a.value)) for a in adj) and not extra and \
         all(_int_const(x.right) or _int_const(x.left) for x in ast.walk(size) if isinstance(x, ast.BinOp)) if size is not None else False
     split_of = _split_receivers(f, hc)
+    if same:
+        # The two places use the same NAME: they use the same communicator only if the same bindings of the name reach the read of
+        # the size and the construction of the layouts (a rebinding in between gives the layouts another object).
+        size_call = c if comm_param else next((n for n in ast.walk(size) if isinstance(n, ast.Call) and isinstance(n.func, ast.Attribute)
+                                               and n.func.attr == "Get_size"), None)
+        read_st = _stmt_of(size_call) if size_call is not None else None
+        use_sts = [_stmt_of(h) for h in handlers]
+        try:
+            exprs = [ast.parse(t_, mode="eval").body for t_ in (hc, cm)]
+        except SyntaxError:
+            exprs = []
+        rb = _comm_rebound(f, exprs, read_st, use_sts) if read_st is not None and all(u is not None for u in use_sts) and exprs else None
+        if rb is not None:
+            nm, new, at_read, followed = rb
+            if not followed or not new:
+                return undecided(f"`{nm}` is bound several times in {f.name}: the bindings reaching the read of the size (line "
+                                 f"{getattr(read_st, 'lineno', '?')}) and the construction of the layouts differ or are not followed; cannot decide "
+                                 "that both see the same communicator")
+            # ASSUMPTIONS of the VIOLATED verdict: (1) a binding `nm = <...>.Split(...)` reaches the handler and not the read, and lies
+            # after the read (positions); (2) the split communicator is the one whose size was read: every binding reaching the read is
+            # `nm = R` with R the receiver of the split (a name bound at most once in the function), or the receiver is `nm` itself with the
+            # same bindings reaching the split as the read; (3) the binding is executed by some run: top level of the function or
+            # directly under a top-level `if` on a free input; (4) the size is not adjusted other than by literals; (5) `nm` is the
+            # name both places use.
+            d = new[0]
+            recv = [src(n.func.value) for n in ast.walk(d.value) if isinstance(n, ast.Call) and isinstance(n.func, ast.Attribute)
+                    and n.func.attr in SUBCOMM_CALLS] if isinstance(d, ast.Assign) and len(new) == 1 else []
+            ok2 = False
+            if len(recv) == 1:
+                R = recv[0]
+                if R == nm:
+                    ok2 = _reaching(f, nm, d) == at_read
+                elif R.isidentifier() and len(_defs(f, R)[0]) <= 1 and not _defs(f, R)[1]:
+                    ok2 = all(isinstance(x, ast.Assign) and len(x.targets) == 1 and isinstance(x.targets[0], ast.Name)
+                              and src(x.value) == R for x in at_read)
+            chain = _chain_to(f.body, d) or []
+            ok3 = len(chain) == 1 or (len(chain) == 2 and isinstance(chain[0][0][chain[0][1]], ast.If)
+                                      and _free_input(f, chain[0][0][chain[0][1]].test) is not None)
+            after_read = _order(f, read_st, d) == "before" and all(_order(f, d, u) == "before" for u in use_sts)
+            if recv and ok2 and ok3 and after_read and (literal_adj or not adjusted) and hc == cm == nm:
+                through = f" (adjusted through {adjusted})" if adjusted else ""
+                cond = f" when `{src(chain[0][0][chain[0][1]].test)[:40]}`" if len(chain) == 2 else ""
+                chk.ob("N1-call-site", d, construct, False,
+                       f"the process count is read from `{nm}` at line {read_st.lineno}{through}, BEFORE `{src(d)[:70]}` (line {d.lineno}) binds "
+                       f"`{nm}` to a part of the split communicator{cond}: the grid is computed for the size of the whole `{recv[0]}` while "
+                       f"the layouts are built on the part; the grid does not multiply to the size of the communicator it is laid on (the "
+                       "cartesian topology cannot be created, or validity is decided for the wrong process count)", **kw)
+                return
+            return undecided(f"`{nm}` is bound again (`{src(d)[:60]}`, line {d.lineno}) between the read of its size (line {read_st.lineno}) "
+                             "and the construction of the layouts: cannot decide that both see the same communicator")
     if not same and _is_subcomm(f, hc, cm) and (not (literal_adj or not adjusted) or not split_of
                                                  or not all(r_ == cm or _same_comm(f, r_, cm) for r_ in split_of)):
         return undecided(f"the process count is taken from `{cm}`" + (f" (adjusted through {adjusted})" if adjusted else "") +
@@ -4247,6 +4444,146 @@ def search_rules(chk, fn, nf_tree):
                f"{fn.name} contains no `while` or `for` statement: every statement is executed at most once", nontrivial=False, **kw)
 
 
+# ---------------------------------------------------------------------------------------------------------
+# N3: the search does not recurse with a depth proportional to an input
+# ---------------------------------------------------------------------------------------------------------
+def _literal_step(e, p):
+    """`p + c` / `c + p` / `p - c` with a non-zero integer literal c -> c (signed); None otherwise"""
+    if isinstance(e, ast.BinOp) and isinstance(e.op, (ast.Add, ast.Sub)):
+        l, r = e.left, e.right
+        if isinstance(l, ast.Name) and l.id == p and _int_const(r) and r.value != 0:
+            return r.value if isinstance(e.op, ast.Add) else -r.value
+        if isinstance(e.op, ast.Add) and isinstance(r, ast.Name) and r.id == p and _int_const(l) and l.value != 0:
+            return l.value
+    return None
+
+
+def bounded_recursion(chk, tree):
+    """A helper of the search that calls itself once per candidate has a call depth equal to the distance it walks; that distance is
+    an input (gap to the next divisor / to the bound), the interpreter's recursion limit is a constant: RecursionError - a subclass
+    of RuntimeError, the class of the search's own 'no valid combination' error - is raised for inputs that have a valid grid.
+    HOLDS: no function reachable from the search is on a cycle of the module's call graph.  VIOLATED: see ASSUMPTIONS below.
+    Any other recursion is UNDECIDED."""
+    rule, kw = "N3-bounded-recursion", dict(file=U.PROCGRID)
+    funcs = {st.name: st for st in tree.body if isinstance(st, (ast.FunctionDef, ast.AsyncFunctionDef))}
+    refs = {name: {n.id for n in ast.walk(g) if isinstance(n, ast.Name) and isinstance(n.ctx, ast.Load) and n.id in funcs}
+            for name, g in funcs.items()}
+
+    def closure(start):
+        seen, work = set(), list(start)
+        while work:
+            x = work.pop()
+            for y in refs.get(x, ()):
+                if y not in seen:
+                    seen.add(y)
+                    work.append(y)
+        return seen
+    roots = [q for q in (GRID, FROM_MAX) if q in funcs]
+    reach = set(roots) | closure(roots)
+    cyclic = sorted(g for g in reach if g in closure([g]))
+    if not cyclic:
+        chk.ob(rule, tree, "call depth of the search", True,
+               f"no function reachable from {', '.join(roots)} in {U.PROCGRID} refers to itself (directly or through another function of the "
+               "module): the call depth does not depend on the arguments", nontrivial=False, func="<module>", **kw)
+        return
+    limit_set = [n for n in ast.walk(tree) if isinstance(n, ast.Attribute) and n.attr == "setrecursionlimit"]
+    for name in cyclic:
+        g = funcs[name]
+        construct = f"call depth of {name}"
+        okw = dict(func=name, **kw)
+        rcs = [n for n in ast.walk(g) if isinstance(n, ast.Call) and isinstance(n.func, ast.Name) and n.func.id == name]
+        params = _params(g)
+
+        def und(why, node=None):
+            chk.ob(rule, node or g, construct, None, f"{name} is reachable from the search and on a cycle of the call graph: {why}", **okw)
+        if not rcs:
+            und("it calls itself through another function of the module; the depth of that recursion is not followed")
+            continue
+        if limit_set:
+            und("the module changes the interpreter's recursion limit; the depth is not compared with it", limit_set[0])
+            continue
+        a_ = g.args
+        inner = [n for n in ast.walk(g) if n is not g and isinstance(n, (ast.FunctionDef, ast.AsyncFunctionDef, ast.Lambda, ast.ClassDef, ast.Try,
+                                                                        ast.Raise, ast.While, ast.For, ast.Yield, ast.YieldFrom))]
+        if a_.vararg or a_.kwarg or a_.kwonlyargs or inner or g.decorator_list:
+            und("the function has constructs (starred parameters, decorators, nested scopes, loops, try / raise, generators) under which "
+                "the progress of one call to the next is not modelled")
+            continue
+        other_calls = [n for n in ast.walk(g) if isinstance(n, ast.Call) and n not in rcs and
+                       not (isinstance(n.func, ast.Name) and n.func.id in _N3_PURE and not n.keywords)]
+        if other_calls:
+            und(f"`{src(other_calls[0])[:60]}` may end the recursion in a way that is not followed", other_calls[0])
+            continue
+        stores = {}
+        for n in ast.walk(g):
+            if isinstance(n, ast.Name) and isinstance(n.ctx, (ast.Store, ast.Del)):
+                stores.setdefault(n.id, []).append(_stmt_of(n))
+        stepped, decided = {}, True
+        for rc in rcs:
+            b = _bind(rc, params) if not any(isinstance(x, ast.Starred) for x in rc.args) and not any(k.arg is None for k in rc.keywords) else None
+            if b is None or set(b) != set(params):
+                decided = False
+                break
+            for p in params:
+                a = b[p]
+                if isinstance(a, ast.Name) and a.id == p and p not in stores:
+                    continue                                    # handed on unchanged
+                step = _literal_step(a, p) if p not in stores else None
+                if step is None and isinstance(a, ast.Name) and a.id == p and len(stores.get(p, [])) == 1:
+                    # `p += c` / `p = p + c` at the top level of the body, before the recursive call
+                    st = stores[p][0]
+                    if st in g.body and _order(g, st, _stmt_of(rc)) == "before":
+                        if isinstance(st, ast.AugAssign) and isinstance(st.op, (ast.Add, ast.Sub)) and _int_const(st.value) and st.value.value != 0:
+                            step = st.value.value if isinstance(st.op, ast.Add) else -st.value.value
+                        elif isinstance(st, ast.Assign) and len(st.targets) == 1 and isinstance(st.targets[0], ast.Name):
+                            step = _literal_step(st.value, p)
+                if step is None or stepped.setdefault(p, step) != step:
+                    decided = False
+                    break
+            if not decided:
+                break
+        if not decided or len(stepped) != 1:
+            und("the arguments of the recursive call are not `one parameter moved by an integer literal, the others handed on unchanged`; "
+                "the depth is not followed", rcs[0])
+            continue
+        (p, step), = stepped.items()
+        # ASSUMPTIONS of the VIOLATED verdict: (1) the function is reached from the search (call graph of the module) with arguments that
+        # are not all literals; (2) each call moves exactly one integer parameter by a literal step and hands the others on unchanged
+        # (checked above: no other store, no loop, no other call, no raise / try); (3) nothing in the function bounds the number of
+        # steps by a constant: every comparison is between expressions over the parameters, the only literal allowed being the 0 a
+        # remainder is compared with - the recursion ends where the parameter meets another ARGUMENT or divides one, so the depth is
+        # |stop - start| / |step| resp. the gap between divisors, which the caller chooses; (4) the recursion limit is not raised in
+        # the module (checked above).
+        consts = []
+        for cmp_ in [n for n in ast.walk(g) if isinstance(n, ast.Compare)]:
+            sides = [cmp_.left] + list(cmp_.comparators)
+            has_mod = any(isinstance(x, ast.BinOp) and isinstance(x.op, ast.Mod) for s_ in sides for x in ast.walk(s_))
+            for s_ in sides:
+                for x in ast.walk(s_):
+                    if isinstance(x, ast.Constant) and not (has_mod and s_ is x and x.value == 0 and not isinstance(x.value, bool)) and \
+                            not (isinstance(parent(x), ast.BinOp) and isinstance(parent(x).op, (ast.Add, ast.Sub)) and _int_const(x) and abs(x.value) <= 1):
+                        consts.append(x)
+                    elif isinstance(x, ast.Name) and x.id not in params:
+                        consts.append(x)
+        tests = [n.test for n in ast.walk(g) if isinstance(n, (ast.If, ast.IfExp))]
+        if consts or not tests:
+            und(f"a comparison against `{src(consts[0])}` may bound the number of steps by a constant; the depth is not followed" if consts else
+                "no test ends the recursion", consts[0] if consts else rcs[0])
+            continue
+        ext = [n for q, h in funcs.items() if q != name and q in reach for n in ast.walk(h)
+               if isinstance(n, ast.Call) and isinstance(n.func, ast.Name) and n.func.id == name]
+        if not ext or all(all(isinstance(x, ast.Constant) for x in list(n.args) + [k.value for k in n.keywords]) for n in ext):
+            und("no call from the search with arguments that depend on its inputs was found", rcs[0])
+            continue
+        chk.ob(rule, rcs[0], construct, False,
+               f"{name} calls itself (`{src(rcs[0])[:60]}`) with `{p}` moved by {step:+d} and the other arguments unchanged until "
+               f"{' / '.join('`' + src(t)[:50] + '`' for t in tests[:2])}: one stack frame per candidate, so the call depth is the distance to "
+               f"the next divisor resp. to the stop value - both chosen by the caller (`{src(ext[0])[:60]}`, line {ext[0].lineno}), no constant "
+               "bounds them. Beyond the interpreter's recursion limit (1000 by default; e.g. a process count with a prime factor above "
+               "it, or a large grid on few processes) RecursionError is raised - a subclass of RuntimeError, the class of the search's "
+               "own 'no valid combination' error - although a valid process grid exists", **okw)
+
+
 def run(chk):
     chk.explanation = (
         "Narrow structural claim: for each process-grid direction the dimensions under the min() that bounds it are exactly the "
@@ -4274,6 +4611,7 @@ def run(chk):
     pure_search(chk, mod.tree, mod.func(FROM_MAX))
     # the search is analysed first: the order in which it returns the pair is needed where the pair is laid on the layout handler
     search_rules(chk, nf[FROM_MAX], nf_tree)
+    bounded_recursion(chk, mod.tree)
     if GRID in nf:
         layout_params, comm_param = bounds_vs_layouts(chk, nf, nf_tree) or (set(), False)
     else:
